@@ -11,7 +11,7 @@ from .builder_impl import parse_record
 PROP = "C06"
 KEYS = ["out", "stmts", "tool", "coola", "spin", "pmode", "cool", "power"]
 W = dict(move=6, dist=1, feed=2, power=3, toolon=10, tooloff=2, poweron=8, poweroff=2, coolon=8, cooloff=2,
-         toolchange=2, halt=4, temp=3, misc=3, bounds=8)
+         toolchange=2, halt=4, temp=3, misc=3, bounds=8, home=2, probe=2, setaxis=1, moveabs=1, enter=1, exit=1, hook=1)
 SHUT = ["tooloff", "poweroff", "cooloff", "ehalt 0", "ehalt 1"]
 EXPECT = {"tooloff": "M05", "poweroff": "M05", "cooloff": "M09", "ehalt 0": "M05;M09;_;M00", "ehalt 1": "M05;M09;_;M30"}
 
@@ -44,6 +44,9 @@ def histories(R, n):
             h += ["bounds tool-power 100 1000", R.rng.choice(["toolon clockwise 500", "poweron dynamic 100", "toolon counter 1000"])]
         if R.rng.random() < 0.5:
             h.append(R.rng.choice(["coolon mist", "coolon flood"]))
+        if R.rng.random() < 0.25:
+            # states in which the machine position is (partly) unknown: right after homing or probing
+            h.append(R.rng.choice(["home", "home x=0", "home z=0 y=0", "probe towards z=-1", "probe away-no-error x=1 y=1"]))
         shut = R.rng.choice(SHUT)
         if shut.startswith("ehalt") and R.rng.random() < 0.4:
             shut += " " + str(R.rng.choice([60, 250, 400, 2000]))    # length of the operator message
